@@ -32,11 +32,37 @@ def candidate_source(fm, L):
         return None, "the iterated list is not the result of sorted()/list.sort(): %r" % (sp,)
     srt = sp.args[0]
     kw = {kv.args[0].v: fm.norm(kv.args[1]) for kv in srt.args[1:]}
-    sit = list_items(I, srt.args[0]) if isinstance(srt.args[0], Ref) else None
-    if not sit or len(sit) != 1 or sit[0][0] != "rep":
+    # what is sorted: one filtered pass over the files - possibly chosen by a condition (e.g. "filter only if an extension
+    # was given", the other alternative being the unfiltered file list itself)
+    alts = []
+
+    def leaves(t, cs):
+        t = fm.norm(t)
+        if isinstance(t, Ite):
+            leaves(t.a, cs + [t.c]), leaves(t.b, cs + [not_(t.c)])
+        else:
+            alts.append((t, and_(*cs)))
+    leaves(srt.args[0], [])
+    passes = []
+    raw = []
+    for t, c in alts:
+        sit = list_items(I, t) if isinstance(t, Ref) else None
+        if sit and len(sit) == 1 and sit[0][0] == "rep":
+            passes.append((sit[0], c))
+        elif sit is not None and not sit:
+            continue        # the empty default of an unreadable directory
+        else:
+            raw.append((t, c))
+    if not passes:
         return None, "what is sorted is not the result of one pass over the directory entries"
-    _, Lf, term, g = sit[0]
-    return dict(kw=kw, Lf=Lf, elem=fm.norm(term), guard=fm.norm(g)), ""
+    (_, Lf, term, g), c0 = passes[0]
+    files = fm.norm(Lf.iter)
+    if len(passes) > 1 or any(t != files for t, c in raw):
+        return None, "what is sorted is assembled from several different sources"
+    keep = and_(c0, fm.norm(g))
+    for t, c in raw:
+        keep = or_(keep, c)       # on this alternative every file is kept
+    return dict(kw=kw, Lf=Lf, elem=fm.norm(term), guard=keep), ""
 
 
 def check_filelist(rep, prog, fm, cfg):
@@ -80,8 +106,14 @@ def check_filelist(rep, prog, fm, cfg):
             splitext = Op("getitem", Op("call:os.path.splitext", fname), Const(1))
             want = not_(and_(pelx_truth(ext_cfg), compare("ne", ext_cfg, splitext)))
             gl = src["guard"]
-            e1, env = implies(gl, want)
-            e2, env2 = implies(want, gl)
+            e1 = e2 = True
+            # the option value may be copied into the Config conditionally (config.extension = args.extension if given):
+            # decide the equivalence separately with and without the option
+            A = fm.arg("extension")
+            for case in (A, not_(A)):
+                gc, wc = pelx.specialise(gl, case), pelx.specialise(want, case)
+                e1 = e1 and implies(and_(case, gc), wc)[0]
+                e2 = e2 and implies(and_(case, wc), gc)[0]
             rep.check(okn and e1 and e2 and not Lf.stops, rule, "%s: candidates = every top-level file passing the --extension filter" % fn, Lf.func, Lf.node,
                       "in %s the candidate list is not 'all files whose extension equals config.extension (when given)': file kept under %r, "
                       "expected: not (extension and extension != splitext(file)[1]) with extension = config.extension" % (fn, gl), node=Lf.node)
